@@ -445,6 +445,40 @@ def mutate(rng, root, layout, info, klass):
         m, e = rng.choice(cands)
         e['tag'] = 'DATA'
         rec['path'] = mtext.full_path(os.path.dirname(m), e)
+    elif klass == 'm-compatible-dup-across':
+        # a file listed, correctly, by its own Manifest and by a Manifest further up,
+        # with disjoint (or equal) hash sets - what a hash migration of the upper
+        # Manifest leaves behind; rec['union'] is the union of the two hash sets
+        cands = []
+        for f in files:
+            for mpath, e in _file_entries(layout, info, f):
+                up = layout['mans'][mpath]['parent']
+                if up is None or e['tag'] == 'AUX' or not e['sums']:
+                    continue
+                if os.path.dirname(up) == os.path.dirname(mpath):
+                    continue
+                cands.append((f, mpath, e, up))
+        if not cands:
+            return None
+        f, mpath, e, up = rng.choice(cands)
+        updir = os.path.dirname(up)
+        if updir and not mtext.comp_prefix(f, updir):
+            return None
+        with open(os.path.join(root, f), 'rb') as fh:
+            data = fh.read()
+        mine = [h for h in sorted(e['sums']) if h in mtext.supported_hashes()]
+        other = [h for h in mtext.supported_hashes() if h not in e['sums']]
+        rng.shuffle(other)
+        hs = rng.choice([other[:1], other[:1], other[:2], mine])
+        if not hs or len(mine) != len(e['sums']):
+            return None
+        rel = f[len(updir) + 1:] if updir else f
+        dup = {'tag': 'DATA', 'path': rel, 'size': len(data),
+               'sums': mtext.digests(hs, data)}
+        ents = layout['mans'][up]['entries']
+        ents.insert(rng.randrange(len(ents) + 1), dup)
+        rec['path'] = f
+        rec['union'] = sorted(set(mine) | set(hs))
     elif klass == 'm-manifest-data-in-between':
         # sub-Manifest X registered by a MANIFEST entry in the top-level Manifest while
         # its nearer parent A lists it, correctly, as a plain DATA / MISC file (legal:
